@@ -14,18 +14,20 @@ Regular expressions over the macro text, no Rust parsing.  If the source does no
 translator raises `Unrecognised` (the plugin records `translator: unavailable`, the previous file stays).
 The generated file is pure data (lists of strings); whether it agrees with the model is decided by Coq
 (Proofs/DispatchArmsP.v)."""
+import os as _os
+_REPO_ROOT = _os.environ.get("MECH_REPO", "/repo")   # testing aid (seeded runs); registered commands never set it
 import os, re, sys
 
-STDLIB = "/repo/src/core/src/stdlib.rs"
+STDLIB = (_REPO_ROOT + "/src/core/src/stdlib.rs")
 OPFILES = {
-    "add": "/repo/machines/math/src/ops/add.rs", "sub": "/repo/machines/math/src/ops/sub.rs",
-    "mul": "/repo/machines/math/src/ops/mul.rs", "div": "/repo/machines/math/src/ops/div.rs",
-    "mod": "/repo/machines/math/src/ops/modulus.rs", "pow": "/repo/machines/math/src/ops/pow.rs",
-    "eq": "/repo/machines/compare/src/eq.rs", "neq": "/repo/machines/compare/src/neq.rs",
-    "lt": "/repo/machines/compare/src/lt.rs", "lte": "/repo/machines/compare/src/lte.rs",
-    "gt": "/repo/machines/compare/src/gt.rs", "gte": "/repo/machines/compare/src/gte.rs",
-    "and": "/repo/machines/logic/src/and.rs", "or": "/repo/machines/logic/src/or.rs", "xor": "/repo/machines/logic/src/xor.rs",
-    "concat": "/repo/machines/string/src/concat.rs",
+    "add": (_REPO_ROOT + "/machines/math/src/ops/add.rs"), "sub": (_REPO_ROOT + "/machines/math/src/ops/sub.rs"),
+    "mul": (_REPO_ROOT + "/machines/math/src/ops/mul.rs"), "div": (_REPO_ROOT + "/machines/math/src/ops/div.rs"),
+    "mod": (_REPO_ROOT + "/machines/math/src/ops/modulus.rs"), "pow": (_REPO_ROOT + "/machines/math/src/ops/pow.rs"),
+    "eq": (_REPO_ROOT + "/machines/compare/src/eq.rs"), "neq": (_REPO_ROOT + "/machines/compare/src/neq.rs"),
+    "lt": (_REPO_ROOT + "/machines/compare/src/lt.rs"), "lte": (_REPO_ROOT + "/machines/compare/src/lte.rs"),
+    "gt": (_REPO_ROOT + "/machines/compare/src/gt.rs"), "gte": (_REPO_ROOT + "/machines/compare/src/gte.rs"),
+    "and": (_REPO_ROOT + "/machines/logic/src/and.rs"), "or": (_REPO_ROOT + "/machines/logic/src/or.rs"), "xor": (_REPO_ROOT + "/machines/logic/src/xor.rs"),
+    "concat": (_REPO_ROOT + "/machines/string/src/concat.rs"),
 }
 KERNELS = ["op", "vec_op", "scalar_lhs_op", "scalar_rhs_op", "mat_vec_op", "vec_mat_op", "mat_row_op", "row_mat_op"]
 ROOT = os.path.dirname(os.path.dirname(os.path.abspath(__file__)))
